@@ -260,6 +260,26 @@ func liveExec(f []string) string {
 			return "err " + ErrName(err, c29Errs)
 		}
 		return showTxns(txns, total)
+	case "live_pagev":
+		// the verbose variant (behind GET /api/v2/transactions?verbose=1): same page, same page count,
+		// and one input list per transaction of the page
+		pg, err := visor.NewPageIndex(PU64(f[4]), PU64(f[5]))
+		if err != nil {
+			return "err " + ErrName(err, c29Errs)
+		}
+		txns, inputs, total, err := live.v.GetTransactionsWithInputs(live.filters(f[1], f[2]), orderOf(f[3]), pg)
+		if err != nil {
+			return "err " + ErrName(err, c29Errs)
+		}
+		if len(inputs) != len(txns) {
+			return showTxns(txns, total) + " inputs=" + strconv.Itoa(len(inputs))
+		}
+		for i, t := range txns {
+			if len(inputs[i]) != len(t.Transaction.In) {
+				return showTxns(txns, total) + " inputs-of-" + strconv.Itoa(i) + "=" + strconv.Itoa(len(inputs[i]))
+			}
+		}
+		return showTxns(txns, total)
 	}
 	panic("harness: unknown op " + f[0])
 }
@@ -319,10 +339,22 @@ func liveGen(r *Rng, tier string, emit func(string)) {
 				}
 				for k := uint64(1); k <= all; k++ {
 					emit("live_page " + key + " " + u(size) + " " + u(k))
+					emit("live_pagev " + key + " " + u(size) + " " + u(k))
+				}
+				// beyond the last page, for BOTH variants, always: the page must be empty and the page
+				// count still N
+				beyond := []uint64{N + 1, N + 2, 1 << 32, 1 << 63, ^uint64(0)}
+				if size > 0 {
+					beyond = append(beyond, ^uint64(0)/size, ^uint64(0)/size+1)
+				}
+				for _, p := range beyond {
+					emit("live_page " + key + " " + u(size) + " " + u(p))
+					emit("live_pagev " + key + " " + u(size) + " " + u(p))
 				}
 				for _, p := range pagesFor(r, size, n) {
 					if r.Chance(35) {
 						emit("live_page " + key + " " + u(size) + " " + u(p))
+						emit("live_pagev " + key + " " + u(size) + " " + u(p))
 					}
 				}
 			}
